@@ -53,7 +53,7 @@ def load_harnesses(pid):
 
 def gen_partfile(h: Harness, tier, workdir, known):
     t = h.tier(tier)
-    pres = list(h.pre) + list(t["pre"])
+    pres = list(t["pre"]) + list(h.pre)
     for k in known:
         if k.get("harness") == h.name and k.get("exclude"):
             pres.append("not (" + k["exclude"] + ")")
@@ -64,8 +64,11 @@ def gen_partfile(h: Harness, tier, workdir, known):
         fn = f"{h.name}__{tag}"
         names.append(fn)
         lines += [f"def {fn}({h.args}) -> bool:", '    """']
+        # the partition clause goes FIRST: CrossHair evaluates pre-conditions in order and forks on
+        # each comparison, so the most restrictive clause must prune before the general ones fork
+        lines += ["    pre: " + extra]
         lines += ["    pre: " + p for p in pres]
-        lines += ["    pre: " + extra, "    post: _", '    """',
+        lines += ["    post: _", '    """',
                   f"    return run_body(_f, ({', '.join(h.argnames)},))", ""]
     path = os.path.join(workdir, f"part_{h.name}.py")
     with open(path, "w") as f:
@@ -191,8 +194,17 @@ def main():
             log(f"NOTE: listed finding no longer reproduces: {k['what']}")
 
     # 2. concrete sample per harness: sanity + function trace
+    gate_failed = False
     for h in harnesses:
         if h.kind == "smt":
+            continue
+        if h.gate:
+            r, _ = replay(h, list(h.sample), workdir)
+            if r["ok"] is not True:
+                gate_failed = True
+                inconclusive.append(f"{h.name}: model/oracle validation gate failed ({r['why'][:300]}): no verdict from this run")
+            else:
+                samples.append({"harness": h.name, "kind": "validation gate passed"})
             continue
         if h.sample is not None and (h.sample != () or not h.argnames):
             r, _ = replay(h, list(h.sample), workdir, trace=True)
@@ -212,7 +224,7 @@ def main():
     jobs = []
     jobinfo = {}
     for h in harnesses:
-        if h.concrete or h.kind == "smt":
+        if h.concrete or h.kind == "smt" or h.gate or gate_failed:
             continue
         t = h.tier(tier)
         partfile, names, pres = gen_partfile(h, tier, workdir, known)
@@ -258,7 +270,7 @@ def main():
     # 4. direct SMT harnesses
     smt_results = []
     for h in harnesses:
-        if h.kind != "smt":
+        if h.kind != "smt" or gate_failed:
             continue
         env = dict(os.environ, VERIF_MODE="smt", VERIF_TIER=tier)
         out = os.path.join(workdir, f"smt_{h.name}.json")
@@ -275,6 +287,8 @@ def main():
             continue
         per_harness[h.name] = {"queries": len(res), "bounds": h.bounds, "generalises": h.generalises}
         for q in res:
+            if q["verdict"] == "not-encoded":
+                continue
             obligations += 1
             smt_n += q.get("queries", 1); smt_t += q.get("time_s", 0.0)
             paths += 1
